@@ -271,7 +271,11 @@ impl<'a> ParserModuleAnalyzer<'a> {
     };
     // Get trailing comments from the program end to extract sourceMappingURL
     // which is typically at the very end of the file
-    let trailing_comments = comments.get_trailing(program.end());
+    let trailing_comments = match program.body().next() {
+      Some(_) => comments.get_trailing(program.end()),
+      // a program without statements: all of its comments are the ones above
+      None => leading_comments,
+    };
     ModuleInfo {
       is_script: program.compute_is_script(),
       dependencies: analyze_dependencies(program, text_info, comments),
